@@ -318,6 +318,7 @@ package ecs
 //@   requires lockInv(m)
 //@   panics_if m.bitPool.available == 0 && int(m.bitPool.length) >= MaskTotalBits
 //@   flag panic_clean
+//@   on_panic lockSame(m)
 //@   ensures lockInv(m)
 //@   ensures specBit(m.locks, l) && !old(specBit(m.locks, l))
 //@   ensures forall! b uint8 :: b != l ==> specBit(m.locks, b) == old(specBit(m.locks, b))
@@ -329,6 +330,7 @@ package ecs
 //@   requires lockInv(m) && validID(l)
 //@   panics_if !specBit(m.locks, l)
 //@   flag panic_clean
+//@   on_panic lockSame(m)
 //@   ensures lockInv(m)
 //@   ensures !specBit(m.locks, l)
 //@   ensures forall! b uint8 :: b != l ==> specBit(m.locks, b) == old(specBit(m.locks, b))
@@ -983,6 +985,8 @@ package ecs
 //@   props C03 C09
 //@   requires query != nil && lockInv(&w.locks) && validID(query.lockBit)
 //@   panics_if !specBit(w.locks.locks, query.lockBit)
+//@   flag panic_clean
+//@   on_panic lockSame(&w.locks)
 //@   ensures query.nodeIndex == -2 && query.archIndex == -2
 //@   ensures lockInv(&w.locks) && !specBit(w.locks.locks, query.lockBit)
 //@   ensures forall! b uint8 :: b != query.lockBit ==> specBit(w.locks.locks, b) == old(specBit(w.locks.locks, b))
@@ -1991,3 +1995,13 @@ package ecs
 //@   ensures arch != nil && start == old(arch.len)
 //@   ensures[target] len(comps) > 0 && arch.archetypeAccess.HasRelationComponent ==> arch.archetypeAccess.RelationTarget == target
 //@   ensures[relation] hasTarget ==> arch.node.HasRelation && arch.node.Relation.id == targetID.id
+
+// Close: releases exactly the query's lock bit; closing a query whose lock is not held (closed or exhausted before) panics
+// and leaves the lock state as it was.
+//@ func Query.Close(q)
+//@   props C09 C03
+//@   requires q.world != nil && lockInv(&q.world.locks) && validID(q.lockBit)
+//@   panics_if !specBit(q.world.locks.locks, q.lockBit)
+//@   on_panic lockSame(&q.world.locks)
+//@   ensures qLockReleased(q) && q.archIndex == -2 && q.nodeIndex == -2
+//@   modifies q.nodeIndex, q.archIndex, q.world.locks.locks.bits, *(&q.world.locks.bitPool)
